@@ -298,9 +298,12 @@ def abstract(x: t.Any) -> dict:
                 v = _Unset
             fs.append([tok(f.name), {'k': 'unset'} if v is _Unset else abstract(v)])
         try:
-            st = sorted(tok(n) for n in getattr(x, '__pane_set__'))
-        except AttributeError:
-            st = ['?noset']
+            st = sorted(tok(n) for n in x.dict(set_only=True))      # the documented view of the set-field record
+        except Exception:  # noqa
+            try:
+                st = sorted(tok(n) for n in getattr(x, '__pane_set__'))
+            except AttributeError:
+                st = ['?noset']
         return {'k': 'inst', 'c': ty.__name__, 'fs': fs, 'set': st}
     if ty.__name__ in SUB_CLASSES and SUB_CLASSES[ty.__name__] is ty:
         for bk, b in _BASE_OF_KIND.items():
@@ -786,7 +789,7 @@ def make_class(C: dict, sp: int = 0) -> type:
         _n[0] += 1                    # observable: how often the hook ran (C14, C16)
         if _c is not None and _c.f(getattr(self, _f)):
             raise ValueError('hook refuses ' + _f)
-        if _s is not None and _s in self.__pane_set__:        # the hook's own view of the set-field record
+        if _s is not None and _s in self.dict(set_only=True):        # the hook's own view of the set-field record
             raise ValueError('hook refuses an explicitly given ' + _s)
     inherits_hook = parent is not None and canon(parent['hook']) == canon(hook)
     if inherits_hook:
